@@ -375,6 +375,10 @@ Apply(W, op) ==
      [] op.name = "clear_meta"      -> DoClearMeta(S, op.x, op.key, "clear_meta")
      [] op.name = "update_meta"     -> DoUpdateMeta(S, op.x, op.m, op.replace, "update_meta")
      [] op.name = "filter"          -> DoFilter(S, op.p, op.v, "filter")
+     [] op.name = "stale"           ->   \* any call made through the handle of a node that was removed earlier
+            \* (removed nodes are "neither reachable nor counted", C01): whatever it answers - the library does not
+            \* promise an error class, and read-like calls succeed - the tree is not affected by it
+            Result(TRUE, AnyErr, "stale:" \o op.what, 0, S)
 
 ----------------------------------------------------------------------------
 (* canonical renumbering: live nodes get ids 1..m in pre-order (drops dead ids) *)
